@@ -96,6 +96,7 @@ struct Obj {
 	bool dead, armed;
 	std::vector<int> holds;        // references this object holds itself (released when it is destroyed); -1 = empty element
 	CountMeta *cm; int *dtor; int fd0, fd1;
+	uintptr_t *ctr;                // counter located at run time (kinds without a mirrored layout)
 	unsigned ma, mu;               // addref / unref calls the model expects the object to have seen
 };
 
@@ -155,6 +156,7 @@ struct World {
 	uintptr_t *counter(int o) const
 	{
 		const Obj &b = objs[o];
+		if (b.ctr) return b.ctr;
 		switch (b.kind) {
 		case K_BUF: case K_REFBUF: return (uintptr_t *) b.block;
 		case K_CNT: return &b.cm->cnt;
@@ -169,11 +171,12 @@ struct World {
 	int add(int kind, void *ptr, const void *block)
 	{
 		Obj b; b.kind = kind; b.ptr = ptr; b.block = block; b.handles = 1; b.phantom = 0; b.raw = 0; b.dead = false; b.armed = false;
-		b.cm = 0; b.dtor = 0; b.fd0 = b.fd1 = -1; b.ma = b.mu = 0;
+		b.cm = 0; b.dtor = 0; b.fd0 = b.fd1 = -1; b.ctr = 0; b.ma = b.mu = 0;
 		objs.push_back(b);
 		return (int) objs.size() - 1;
 	}
-	void preset_high(int o) { *counter(o) = UMAX - 1; objs[o].phantom = UMAX - 1 - objs[o].handles; }
+	void preset(int o, uintptr_t v) { *counter(o) = v; objs[o].phantom = v - objs[o].handles; }
+	void preset_high(int o) { preset(o, UMAX - 1); }
 	bool real_live(int o) const { const Obj &b = objs[o]; return b.kind == K_CNT ? !b.cm->destroyed : ledger_is_live(b.block); }
 	std::string describe() const
 	{
@@ -525,7 +528,7 @@ struct MetaSys : World {
 	static std::string opname(int i)
 	{
 		const OpDef &d = cfg.ops[i];
-		if (d.code == M_NEW) return fmt("new %s%s -> slot %d", kname[d.b], d.c ? "(count=MAX-1)" : "", d.a);
+		if (d.code == M_NEW) return fmt("new %s%s -> slot %d", kname[d.b], d.c == 1 ? "(count=MAX-1)" : (d.c == 2 ? "(count=2^32+1)" : ""), d.a);
 		return fmt("%s(%d,%d)", mopn[d.code], d.a, d.b);
 	}
 	int livedefs() const { int n = 0; for (const Deferred &d : defs) n += d.live; return n; }
@@ -620,7 +623,7 @@ struct MetaSys : World {
 		so[s] = nw;
 		if (old >= 0) { release(old); if (old != nw) ++C.replaced; }
 	}
-	int create(int kind, int s, bool hi)
+	int create(int kind, int s, int pre)
 	{
 		metatype *mt = 0; int o = -1;
 		switch (kind) {
@@ -638,6 +641,16 @@ struct MetaSys : World {
 			LIB(mpt::mpt_array_clone(A(&a), 0));
 			if (!mt) return -1;
 			o = add(kind, mt, find_block(mt)); objs[o].holds.push_back(bo);
+			if (kind == K_IOBUF && objs[o].block) {
+				// private counter of a function-local class: the word of the object that goes 1 -> 2 -> 1 over addref/unref
+				uintptr_t *w = (uintptr_t *) objs[o].block; size_t n = (sizeof(mpt::io::buffer::metatype) + 2 * sizeof(void *)) / sizeof(uintptr_t);
+				std::vector<uintptr_t> snap(w, w + n);
+				if (LIB(mt->addref())) {
+					for (size_t k = 0; k < n; ++k) if (snap[k] == 1 && w[k] == 2) objs[o].ctr = w + k;
+					LIB((mt->unref(), 0));
+					if (objs[o].ctr && *objs[o].ctr != 1) objs[o].ctr = 0;
+				}
+			}
 			break; }
 		case K_REPLY: mt = LIB(mpt::mpt_reply_deferrable(2, send_cb, &send)); if (mt) o = add(kind, mt, find_block(mt)); break;
 		case K_RAW: mt = LIB(mpt::mpt_rawdata_create(-1)); if (mt) o = add(kind, mt, find_block(mt)); break;
@@ -667,7 +680,11 @@ struct MetaSys : World {
 		if (kind != K_CNT && !objs[o].block) return -1;
 		++created;
 		sl[s] = mt; so[s] = o;
-		if (hi) preset_high(o);
+		if (pre == 1) preset_high(o);
+		if (pre == 2) {   // 2^32+1: one unref leaves exactly 2^32 references
+			if (!counter(o)) { r.incomplete(std::string("reference counter of a ") + kname[kind] + " object not located"); return -1; }
+			preset(o, ((uintptr_t) 1 << 32) + 1);
+		}
 		return o;
 	}
 	// model of a copy of the reference buffer `b` made by the library (each element is copy-constructed)
@@ -690,7 +707,7 @@ struct MetaSys : World {
 		switch (d.code) {
 		case M_NEW: {
 			sig = std::string("new|") + kname[t];
-			int o = create(t, s, d.c != 0);
+			int o = create(t, s, d.c);
 			if (bad) return false;
 			if (o == -2) break;
 			if (o < 0) { r.incomplete(std::string("creating a ") + kname[t] + " object failed"); return false; }
@@ -1017,9 +1034,11 @@ static void replay(Run &r, const Vec &v)
 static int rc_depth(Tier t) { return t == Quick ? 5 : 7; }
 static void refcount_body(Run &r, Ctx &x, int depth)
 {
-	static const uintptr_t presets[] = { 0, 1, 2, UMAX - 1, UMAX };
-	static const char *pn[] = { "0", "1", "2", "MAX-1", "MAX" };
-	size_t pi = x.choose(5);
+	// limits plus every integer-width boundary (a count squeezed through a narrower type shows up there)
+	static const uintptr_t B31 = (uintptr_t) 1 << 31, B32 = (uintptr_t) 1 << 32, B63 = (uintptr_t) 1 << 63;
+	static const uintptr_t presets[] = { 0, 1, 2, UMAX - 1, UMAX, B31 - 1, B31, B31 + 1, B32 - 1, B32, B32 + 1, B32 * 2, B63 - 1, B63, B63 + 1 };
+	static const char *pn[] = { "0", "1", "2", "MAX-1", "MAX", "2^31-1", "2^31", "2^31+1", "2^32-1", "2^32", "2^32+1", "2^33", "2^63-1", "2^63", "2^63+1" };
+	size_t pi = x.choose(sizeof presets / sizeof *presets);
 	uintptr_t v = presets[pi];
 	mpt::refcount *rc = (mpt::refcount *) malloc(sizeof(mpt::refcount));
 	rc->_val = v;
@@ -1036,9 +1055,10 @@ static void refcount_body(Run &r, Ctx &x, int depth)
 		r.hint(nm);
 		++r.transitions;
 		uintptr_t ret = raise ? (cxx ? LIB(rc->raise()) : LIB(mpt::mpt_refcount_raise(rc))) : (cxx ? LIB(rc->lower()) : LIB(mpt::mpt_refcount_lower(rc)));
-		const char *cls = v == 0 ? "at-zero" : (v == UMAX ? "at-max" : "in-range");
+		const char *cls = v == 0 ? "at-zero" : (v == UMAX ? "at-max" : (v > B31 - 4 ? "in-range,wide" : "in-range"));
 		std::string sg = std::string(raise ? "refcount_raise|" : "refcount_lower|") + cls + "|";
-		if (v == 0 || (raise && v == UMAX)) boundary = true;
+		if (v == 0 || (raise && v == UMAX) || pi >= 5) boundary = true;
+		if (pi >= 5) r.count("raise_lower_at_width_boundary");
 		if (raise) {
 			if (v == 0 || v == UMAX) {
 				r.count("raise_refused_at_limit");
@@ -1107,7 +1127,9 @@ static bool configure(const std::string &job, Tier tier)
 	else if (k == "mixed") { cfg.kinds = {K_GENINFO, K_RAW, K_REPLY, K_CXX}; cfg.cxx = false; cfg.traits = false; cfg.clone = false; }
 	else return false;
 	for (int kind : cfg.kinds) { add_ops(o, M_NEW, S, 0, 0); for (size_t i = o.size() - S; i < o.size(); ++i) o[i].b = kind;
-		if (kpokeable(kind)) { add_ops(o, M_NEW, S, 0, 1); for (size_t i = o.size() - S; i < o.size(); ++i) o[i].b = kind; } }
+		if (kpokeable(kind)) { add_ops(o, M_NEW, S, 0, 1); for (size_t i = o.size() - S; i < o.size(); ++i) o[i].b = kind; }
+		// the kinds counted through the C++ refcount wrappers also start at 2^32+1
+		if (kind == K_CXX || kind == K_GENI || kind == K_IOBUF) { add_ops(o, M_NEW, S, 0, 2); for (size_t i = o.size() - S; i < o.size(); ++i) o[i].b = kind; } }
 	if (cfg.conv) { add_ops(o, M_CONVREF, S, S); add_ops(o, M_CONVPTR, S, S); add_ops(o, M_CONVNULL, S, 0); }
 	if (cfg.genconv) add_ops(o, M_GENCONV, S, S);
 	if (cfg.cxx) { add_ops(o, M_CXXASSIGN, S, S); add_ops(o, M_CXXMOVE, S, S); add_ops(o, M_CXXCOPY, S, S); add_ops(o, M_CXXSET, S, 6); add_ops(o, M_CXXDETACH, S, 0); add_ops(o, M_CXXDTOR, S, 0); }
@@ -1140,7 +1162,7 @@ void mc_explore(Run &r, const std::string &job)
 	C = Counters(); g_mismatch = 0; g_reported.clear();
 	r.require("nontrivial");
 	if (job == "refcount") {
-		r.require("raise_refused_at_limit"); r.require("lower_at_zero");
+		r.require("raise_refused_at_limit"); r.require("lower_at_zero"); r.require("raise_lower_at_width_boundary");
 		int depth = rc_depth(r.tier);
 		dfs(r, [&](Ctx &x) { refcount_body(r, x, depth); });
 		return;
